@@ -717,10 +717,9 @@ func (s *Shard) validateSeriesAndFields(points []models.Point) ([]models.Point, 
 			verifhook.Yield("shard.fields.validated", name)
 		}
 
-		points[j] = points[i]
-		j++
-
 		// Create any fields that are missing.
+		nCreate := len(fieldsToCreate)
+		conflict := ""
 		iter.Reset()
 		for iter.Next() {
 			fieldKey := iter.FieldKey()
@@ -730,12 +729,20 @@ func (s *Shard) validateSeriesAndFields(points []models.Point) ([]models.Point, 
 				continue
 			}
 
-			if mf.FieldBytes(fieldKey) != nil {
+			dataType := dataTypeFromModelsFieldType(iter.Type())
+			if dataType == influxql.Unknown {
 				continue
 			}
 
-			dataType := dataTypeFromModelsFieldType(iter.Type())
-			if dataType == influxql.Unknown {
+			if f := mf.FieldBytes(fieldKey); f != nil {
+				// A concurrent write may have created the field after the
+				// validator looked: it exists now, so its type has to match.
+				if f.Type != dataType {
+					conflict = fmt.Sprintf(
+						"%s: input field \"%s\" on measurement \"%s\" is type %s, already exists as type %s",
+						ErrFieldTypeConflict, fieldKey, name, dataType, f.Type)
+					break
+				}
 				continue
 			}
 
@@ -747,6 +754,18 @@ func (s *Shard) validateSeriesAndFields(points []models.Point) ([]models.Point, 
 				},
 			})
 		}
+		if conflict != "" {
+			fieldsToCreate = fieldsToCreate[:nCreate]
+			if reason == "" {
+				reason = conflict
+			}
+			dropped++
+			atomic.AddInt64(&s.stats.WritePointsDropped, 1)
+			continue
+		}
+
+		points[j] = points[i]
+		j++
 	}
 
 	if dropped > 0 {
